@@ -160,7 +160,7 @@ var c04Prefixes = map[string][]seqx.Op{
 	"+heads8": heads8(),
 	// the writer moves to a second device: an identity with the same id and another public key
 	"+setid-device": append(chain(0, 3), seqx.Op{K: "join", A: 2, B: 0}, seqx.Op{K: "app", A: 2}, seqx.Op{K: "join", A: 0, B: 2}, seqx.Op{K: "setid", A: 0, B: 4}),
-	"+setid":  append(chain(0, 3), seqx.Op{K: "join", A: 2, B: 0}, seqx.Op{K: "app", A: 2}, seqx.Op{K: "join", A: 0, B: 2}, seqx.Op{K: "setid", A: 0, B: 1}),
+	"+setid":        append(chain(0, 3), seqx.Op{K: "join", A: 2, B: 0}, seqx.Op{K: "app", A: 2}, seqx.Op{K: "join", A: 0, B: 2}, seqx.Op{K: "setid", A: 0, B: 1}),
 }
 
 func c04Searches(p *run.Part, tier string) []*seqx.Search {
